@@ -2,9 +2,18 @@
 from props import countcheck as cc
 import count_driver as cd
 ORACLES = ['c06']
+def tweak(rng, e, o):
+    """wigm under arithmetic so coarse that different tallies compare equal (guarded, precision 0 or 1): the surplus step then
+    chooses among pending winners that are equal only within the tolerance, and must transfer the chosen one's own surplus"""
+    if o['rule'] == 'wigm' and e.get('family') in ('mid', 'chain', 'coalition') and rng.random() < 0.5:
+        keep = dict(rule='wigm', arithmetic='guarded', precision=rng.choice([0, 0, 1]), guard=rng.choice([2, 3]))
+        o.clear(); o.update(keep)
+        if e['s'] < 3 and e['n'] >= 4: e['s'] = 3
+
 def run(chk, ctx):
     chk.cov['rule'] = ("random elections (long chains with nested surpluses) x Gregory-family rules x arithmetics; scope: every ballot's index and raw "
                        "weight at every action plus tallies/statuses; oracle: P1 no hopeful skipped, P3 tally = sum of ballot values, P4 weights change "
                        "only at a surplus transfer to the prescribed truncated value, elected keeps the quota, 0<=w'<=w<=1")
-    cc.run(chk, ctx, 'ballots', ORACLES, 800, 80000, rules=cd.GREGORY, families=['chain', 'chain', 'small', 'tie', 'nearquota', 'bigmult', 'hugemult', 'mid', 'exactquota', 'exactquota', 'coalition'])
+    cc.run(chk, ctx, 'ballots', ORACLES, 800, 80000, rules=cd.GREGORY, families=['chain', 'chain', 'small', 'tie', 'nearquota', 'bigmult', 'hugemult', 'mid', 'exactquota', 'exactquota', 'coalition'], tweak=tweak,
+           extra=[('directed-coarse', 600, 20000, ['wigm'], ['mid', 'chain', 'coalition'])])
 def replay(chk, payload): return cc.replay(chk, payload, ORACLES)
